@@ -56,6 +56,23 @@ theorem readFieldAttr_enc (p : Pool) (a : SFieldAttr) (ha : a.Legal p) (f f' : F
       simp only [Bool.false_eq_true, if_false] at h2
       simp only [readFieldAttr, SFieldAttr.raw, attrFrame, List.append_assoc, u16_be16 _ h1, ok_bind, h2, u32_be32 _ h5,
         n1, n2, n3, n4, n5, if_false, if_true, hread, pure_eq]
+  | typeAnnotations nc visible as =>
+    obtain ⟨h1, h2, h3, h4, h5⟩ := ha
+    have hread : readTypeAnnos p readTargetField (encTypeAnnos as ++ r) = ok (as.map STypeAnno.fact, r) :=
+      readTypeAnnos_enc p .field as h3 h4 r
+    cases visible with
+    | true =>
+      obtain ⟨n1, n2, n3, n4, n5, n6⟩ := fieldNe_RVTA
+      simp only [SFieldAttr.apply, if_true, Option.some.injEq] at h; subst h
+      simp only [if_true] at h2
+      simp only [readFieldAttr, SFieldAttr.raw, attrFrame, List.append_assoc, u16_be16 _ h1, ok_bind, h2, u32_be32 _ h5,
+        n1, n2, n3, n4, n5, n6, if_false, if_true, hread, pure_eq]
+    | false =>
+      obtain ⟨n1, n2, n3, n4, n5, n6, n7⟩ := fieldNe_RITA
+      simp only [SFieldAttr.apply, Bool.false_eq_true, if_false, Option.some.injEq] at h; subst h
+      simp only [Bool.false_eq_true, if_false] at h2
+      simp only [readFieldAttr, SFieldAttr.raw, attrFrame, List.append_assoc, u16_be16 _ h1, ok_bind, h2, u32_be32 _ h5,
+        n1, n2, n3, n4, n5, n6, n7, if_false, if_true, hread, pure_eq]
   | unknown nc name b =>
     obtain ⟨h1, h2, hnot, hlen⟩ := ha
     simp only [fieldAttrNames, List.mem_cons, List.not_mem_nil, or_false, not_or] at hnot
@@ -67,6 +84,7 @@ theorem readFieldAttr_enc (p : Pool) (a : SFieldAttr) (ha : a.Legal p) (f f' : F
 theorem fieldFrameOk (p : Pool) (a : SFieldAttr) (ha : a.Legal p) : FrameOk a.raw := by
   cases a with
   | annotations nc visible as => exact ⟨ha.1, ha.2.2.2.2⟩
+  | typeAnnotations nc visible as => exact ⟨ha.1, ha.2.2.2.2⟩
   | unknown nc name b => exact ⟨ha.1, ha.2.2.2⟩
   | deprecated nc => exact ⟨ha.1, by simp [SFieldAttr.raw]⟩
   | synthetic nc => exact ⟨ha.1, by simp [SFieldAttr.raw]⟩
